@@ -27,6 +27,8 @@ def run(rep):
     rep.guard(c03_progress.t9, rep, w)
     rep.guard(t13, rep, w)
     rep.guard(t14, rep, w)
+    import c04_narrow
+    rep.guard(c04_narrow.b4n, rep, w)   # never panics: no sub-word counter the compiler keeps can overflow (checked builds panic on the overflow)
     import c13
     rep.guard(c13.u3, rep, w)     # compile-time code outside the scanner (messages that quote source text) slices strings only at positions the string vouched for
 
